@@ -58,7 +58,8 @@ def run(ctx):
         prof = dict(max_steps=rng.choice([2, 3, 4, 5]), p_tag=rng.choice([0.2, 0.5, 0.8]), p_waitfor=0.3, p_deployexpr=0.2, p_enabled=0.3, p_multi=0.8, p_sum=0.8, p_loop=0.25)
         wf, oc, script, inp = gen.gen_workflow(rng, prof)
         ids = list(wf['steps'])
-        names = ['zeta', 'a', 'm_1', 'Step9', 'q', 'omega']
+        # half of the renamings use names that are words of the expression / lifecycle vocabulary: a step may be called anything
+        names = ['zeta', 'a', 'm_1', 'Step9', 'q', 'omega'] if i % 2 == 0 else ['outputs', 'steps', 'input', 'outputs_x', 'closed', 'error', 'success']
         rng.shuffle(names)
         mapping = {s: names[k] for k, s in enumerate(ids)}
         base.append(wf)
